@@ -950,9 +950,6 @@ def _expand_stars(
     """Expand stars to lists of column selections"""
 
     new_selections: list[exp.Expr] = []
-    except_columns: dict[int, set[str]] = {}
-    replace_columns: dict[int, dict[str, exp.Alias]] = {}
-    rename_columns: dict[int, dict[str, str]] = {}
     ilike_pattern: str | None = None
 
     coalesced_columns = set()
@@ -972,6 +969,10 @@ def _expand_stars(
 
     for expression in scope_expression.selects:
         tables: list[str] = []
+        # The modifiers of a star apply to that star only, so they're keyed by source name per item
+        except_columns: dict[str, set[str]] = {}
+        replace_columns: dict[str, dict[str, exp.Alias]] = {}
+        rename_columns: dict[str, dict[str, str]] = {}
         if isinstance(expression, exp.Star):
             # Only a string literal ILIKE pattern can filter the expansion at optimization time
             ilike = expression.args.get("ilike")
@@ -1050,10 +1051,9 @@ def _expand_stars(
             if not columns or "*" in columns or len(columns) != len(set(columns)):
                 return
 
-            table_id = id(table)
-            columns_to_exclude = except_columns.get(table_id) or set()
-            renamed_columns = rename_columns.get(table_id, {})
-            replaced_columns = replace_columns.get(table_id, {})
+            columns_to_exclude = except_columns.get(table) or set()
+            renamed_columns = rename_columns.get(table, {})
+            replaced_columns = replace_columns.get(table, {})
 
             # Preserve case-sensitivity of quoted source columns when expanding stars,
             # so the generated alias isn't folded by dialect normalization
@@ -1185,7 +1185,7 @@ def _add_ilike_columns(expression: exp.Expr, dialect: Dialect) -> str | None:
     return "".join(chars)
 
 
-def _add_except_columns(expression: exp.Expr, tables, except_columns: dict[int, set[str]]) -> None:
+def _add_except_columns(expression: exp.Expr, tables, except_columns: dict[str, set[str]]) -> None:
     except_ = expression.args.get("except_")
 
     if not except_:
@@ -1194,11 +1194,11 @@ def _add_except_columns(expression: exp.Expr, tables, except_columns: dict[int, 
     columns = {e.name for e in except_}
 
     for table in tables:
-        except_columns[id(table)] = columns
+        except_columns[table] = columns
 
 
 def _add_rename_columns(
-    expression: exp.Expr, tables, rename_columns: dict[int, dict[str, str]]
+    expression: exp.Expr, tables, rename_columns: dict[str, dict[str, str]]
 ) -> None:
     rename = expression.args.get("rename")
 
@@ -1208,11 +1208,11 @@ def _add_rename_columns(
     columns = {e.this.name: e.alias for e in rename}
 
     for table in tables:
-        rename_columns[id(table)] = columns
+        rename_columns[table] = columns
 
 
 def _add_replace_columns(
-    expression: exp.Expr, tables, replace_columns: dict[int, dict[str, exp.Alias]]
+    expression: exp.Expr, tables, replace_columns: dict[str, dict[str, exp.Alias]]
 ) -> None:
     replace = expression.args.get("replace")
 
@@ -1222,7 +1222,7 @@ def _add_replace_columns(
     columns = {e.alias: e for e in replace}
 
     for table in tables:
-        replace_columns[id(table)] = columns
+        replace_columns[table] = columns
 
 
 def qualify_outputs(scope_or_expression: Scope | exp.Expr, dialect: Dialect) -> None:
